@@ -63,7 +63,9 @@ func tlvTSUnit(nbits, exp, num, denom int, t uint64, units int, r *lib.Rng) []by
 func tlvCounter(id, cnt int, units int) []byte {
 	return padTo(append(append([]byte{0x12, byte(units)}, be16(id&0xffff)...), be32(uint32(cnt))...), 8*units, 0)
 }
-func tlvTag(x int, tag uint32) []byte { return append(append([]byte{0x09, 1}, be16(x)...), be32(tag)...) }
+func tlvTag(x int, tag uint32) []byte {
+	return append(append([]byte{0x09, 1}, be16(x)...), be32(tag)...)
+}
 func tlvLabel(s string, units int) []byte {
 	return padTo(append([]byte{0x29, byte(units)}, []byte(s)...), 8*units, 0)
 }
@@ -102,6 +104,7 @@ type fmtChoice struct {
 var goodFormats = []fmtChoice{{"<h", 2}, {">h", 2}, {"h", 2}, {"<i", 4}, {">i", 4}, {"!l", 4}, {"<l", 4}, {"l", 4}, {"<q", 8}, {">q", 8}, {"!q", 8}, {" <h ", 2}}
 var oddFormats = []fmtChoice{{"b", 1}, {"B", 1}, {"H", 2}, {">I", 4}, {"Q", 8}, {"x", 1}, {"L", 4}, {"<L", 4}, {">H", 2}, {"<B", 1},
 	{"<hh", 4}, {">IIQ", 16}, {"xh", 3}, {"<hi", 6}, {"bbbb", 4}, {">ii", 8}, {"", 0}, {"<", 0}, {"  >", 0}}
+
 // several type letters and NO byte-order character: the decoder leaves the byte order nil
 var noOrderFormats = []fmtChoice{{"IIQ", 16}, {"hH", 4}, {"QQ", 16}, {"hh", 4}, {"iq", 12}, {"Hb", 3}, {"qh", 10}, {"II", 8},
 	{"HH", 4}, {"ih", 6}, {"Ix", 5}, {"LL", 8}, {"bh", 3}, {"Bq", 9}, {"h h", 4}}
@@ -287,6 +290,9 @@ func structured(r *lib.Rng, big bool) (dg []byte, bounds []int) {
 		if declaredPL < 0 {
 			declaredPL = 0
 		}
+	case 3:
+		// header + payload length at and beyond 65536 (a 16-bit sum would wrap)
+		declaredPL = r.Pick([]int{65535, 65536 - hl, 65535 - hl, 65537 - hl, 65536 - hl + 8, 0xfff0, 0xffe8, 0x8000, 65536 - 16})
 	}
 	if declaredHL < 0 {
 		declaredHL = 0
@@ -677,6 +683,49 @@ func historize(r *lib.Rng, ops []BOp) []BOp {
 	return out
 }
 
+// interferer makes a well-formed datagram whose header values differ from anything else in the case
+func interferer(r *lib.Rng) []int {
+	w := r.Pick([]int{2, 4, 8})
+	fmts := map[int]string{2: ">h", 4: ">i", 8: ">q"}
+	nchan := r.Pick([]int{3, 5, 7})
+	var tl []byte
+	tl = append(tl, tlvChanOffset(uint32(0x00de0000+r.Intn(65536)), 0)...)
+	tl = append(tl, tlvTSUnit(64, 0xf7, 3, 1, r.U64()|1<<63, 2, r)...)
+	tl = append(tl, tlvFormat([]byte(fmts[w]), 1)...)
+	tl = append(tl, tlvShape([]int{nchan}, 1)...)
+	if r.Chance(1, 2) {
+		tl = append(tl, tlvLabel("value,active,t", 2)...)
+	}
+	pl := w * nchan * r.Range(1, 2)
+	b := header(0xee, 16+len(tl), pl, magicOK, 0xdddddddd, 0xcccccccc)
+	b = append(b, tl...)
+	return toInts(append(b, randBytes(r, pl)...))
+}
+
+// withInterleaving makes the item's decodes run on a reader that delivers in pieces with another decode in between
+func withInterleaving(r *lib.Rng, it Item, n int) Item {
+	it.Inter = interferer(r)
+	var cuts []int
+	switch r.Intn(4) {
+	case 0: // every 8 bytes of the TLV block
+		for c := 24; c < 130; c += 8 {
+			cuts = append(cuts, c)
+		}
+	case 1: // every 4 bytes
+		for c := 4; c < 130; c += 4 {
+			cuts = append(cuts, c)
+		}
+	default:
+		k := r.Range(1, 4)
+		for i := 0; i < k; i++ {
+			cuts = append(cuts, r.Pick([]int{17, 20, 24, 28, 32, 36, 40, 44, 48, 52, 56, 64, 72, r.Range(1, 120)}))
+		}
+	}
+	_ = n
+	it.Cuts = cuts
+	return it
+}
+
 // ---------------------------------------------------------------- corpus
 
 func corpus() [][]Item {
@@ -692,15 +741,15 @@ func corpus() [][]Item {
 	var cs [][]Item
 	// defect witnesses (decoder side)
 	cs = append(cs,
-		d(cat(hd(24, 0), tlvShape([]int{2}, 1))),                                                      // shape, no format: Frames()
-		d(hd(16, 0)),                                                                                  // bare header: ChannelInfo()
-		d(cat(hd(24, 0), tlvFormat([]byte("<h"), 1))),                                                 // format, no shape: ChannelInfo()
-		d(cat(hd(32, 4), tlvFormat([]byte("<"), 1), tlvShape([]int{2}, 1), []byte{1, 2, 3, 4})),       // no type letter: wordlen 0
-		d(cat(hd(32, 4), tlvFormat([]byte("<hh"), 1), tlvShape([]int{1}, 1), []byte{1, 2, 3, 4})),     // mixed format: ReadValue
+		d(cat(hd(24, 0), tlvShape([]int{2}, 1))),      // shape, no format: Frames()
+		d(hd(16, 0)),                                  // bare header: ChannelInfo()
+		d(cat(hd(24, 0), tlvFormat([]byte("<h"), 1))), // format, no shape: ChannelInfo()
+		d(cat(hd(32, 4), tlvFormat([]byte("<"), 1), tlvShape([]int{2}, 1), []byte{1, 2, 3, 4})),                                              // no type letter: wordlen 0
+		d(cat(hd(32, 4), tlvFormat([]byte("<hh"), 1), tlvShape([]int{1}, 1), []byte{1, 2, 3, 4})),                                            // mixed format: ReadValue
 		d(cat(hd(40, 8), tlvFormat([]byte("<h"), 1), tlvShape([]int{16384, 16384, 16384, 16384, 16384}, 2), []byte{1, 2, 3, 4, 5, 6, 7, 8})), // nchan wraps to 0
 		d(cat(hd(40, 8), tlvFormat([]byte("<h"), 1), tlvShape([]int{16384, 16384, 16384, 16384, 128}, 2), []byte{1, 2, 3, 4, 5, 6, 7, 8})),   // nchan wraps to -2^63
-		d(cat(hd(32, 16), tlvFormat([]byte("<h"), 1), tlvShape([]int{256, 256}, 1), make([]byte, 16))), // product 65536
-		d(cat(hd(32, 16), tlvFormat([]byte("<h"), 1), tlvShape([]int{255, 257}, 1), make([]byte, 16))), // product 65535
+		d(cat(hd(32, 16), tlvFormat([]byte("<h"), 1), tlvShape([]int{256, 256}, 1), make([]byte, 16))),                                       // product 65536
+		d(cat(hd(32, 16), tlvFormat([]byte("<h"), 1), tlvShape([]int{255, 257}, 1), make([]byte, 16))),                                       // product 65535
 	)
 	// well-formed packets of every payload type, both byte orders, time stamps, labels
 	pay := []byte{1, 0x80, 0xff, 0x7f, 0, 0, 0x80, 0, 9, 8, 7, 6, 5, 4, 3, 2}
@@ -717,6 +766,12 @@ func corpus() [][]Item {
 		d(cat(hd(24, 3), tlvFormat([]byte("<i"), 1), pay[:3])),
 		d(cat(hd(32, 6), tlvFormat([]byte("<i"), 1), tlvShape([]int{1}, 1), pay[:6])),
 	)
+	// declared header + payload length >= 65536, no format TLV (the payload is left unread): Length() must not wrap
+	for _, pl := range []int{0xfff0, 0xffe8, 0xffff, 0xffe7} {
+		cs = append(cs, d(cat(hd(24, pl), tlvChanOffset(5, 0))))
+	}
+	cs = append(cs, d(hd(16, 0xfff0)), d(cat(hd(32, 0xffe0), tlvChanOffset(5, 0), tlvShape([]int{2}, 1))),
+		d(cat(hd(32, 0xfff8), tlvFormat([]byte("<h"), 1), tlvShape([]int{2}, 1), pay)))
 	// several type letters, no byte-order character: every sample index must be readable
 	for _, f := range []string{"IIQ", "hH", "QQ", "iq", "bh"} {
 		cs = append(cs, d(cat(hd(40, 32), tlvChanOffset(0, 0), tlvFormat([]byte(f), 1), tlvShape([]int{1}, 1), pay, pay)))
@@ -787,6 +842,14 @@ func corpus() [][]Item {
 		b(BOp{O: "ts", T: 1, Rate: 256e6}, BOp{O: "nd", W: 8, Vals: v16(4), Dims: []int{2}}, BOp{O: "enc"},
 			BOp{O: "ts", T: 2, Rate: 256e6}, BOp{O: "enc"}, BOp{O: "mts", T: 3}, BOp{O: "fil", Seq: 77, N: 2}, BOp{O: "fil", Seq: 78, N: 0}),
 	)
+	// two sources decoding "at the same time": the reader delivers the TLV block in pieces, another datagram is decoded in between
+	ri := lib.NewRng(16)
+	for k := 0; k < 3; k++ {
+		it := b(BOp{O: "nd", W: 4, Vals: v16(8), Dims: []int{4}}, BOp{O: "ts", T: 4294972296 + uint64(k), Rate: 125e6})[0]
+		it = withInterleaving(ri, it, 0)
+		it.Cuts = [][]int{{24, 32, 40, 48, 56}, {20}, {40, 44}}[k]
+		cs = append(cs, []Item{it})
+	}
 	many := make([]int, 108)
 	for i := range many {
 		many[i] = 1
@@ -814,7 +877,14 @@ func gen(seed uint64, tier string) []interface{} {
 		add(c)
 	}
 	for i := 0; i < nStructured; i++ {
-		add(structuredFamily(r.Fork(), false))
+		rr := r.Fork()
+		fam := structuredFamily(rr, false)
+		if rr.Chance(1, 5) {
+			for k := range fam {
+				fam[k] = withInterleaving(rr, fam[k], len(fam[k].B))
+			}
+		}
+		add(fam)
 	}
 	for i := 0; i < nMutated; i++ {
 		rr := r.Fork()
@@ -839,7 +909,14 @@ func gen(seed uint64, tier string) []interface{} {
 	}
 	for i := 0; i < nBuild; i++ {
 		rr := r.Fork()
-		add([]Item{randomBuild(rr, false), randomBuild(rr, false)})
+		a, b := randomBuild(rr, false), randomBuild(rr, false)
+		if rr.Chance(1, 2) {
+			a = withInterleaving(rr, a, 0)
+		}
+		if rr.Chance(1, 4) {
+			b = withInterleaving(rr, b, 0)
+		}
+		add([]Item{a, b})
 	}
 	for i := 0; i < nBig; i++ {
 		rr := r.Fork()
